@@ -8,15 +8,60 @@ import (
 	"github.com/gotd/td/internal/verifrt"
 )
 
-// VerifC08_idgen: MessageIDGen.New against an arbitrary clock: k readings, each any instant
-// between 2001 and 2037 (equal, decreasing, advancing by 1..3 ns, jumping — all allowed).
-// Claims: every id is strictly greater than the previous one, divisible by 4 (client type),
-// encodes a time no earlier than the previous id's time, and that time is close to the clock:
-// not before (max reading so far) - 3 ns and not after (max reading so far) + 10 ns * calls.
+func verifC08Nano(id int64) int64 { return (id>>32)*1000000000 + int64(int32(id)) }
+
+// VerifC08_step: one call of MessageIDGen.New from an ARBITRARY generator state (inductive step):
+// g.nano is any value a history can have left behind (0 for a fresh generator, otherwise any
+// instant between 2001 and 2037, not necessarily 4-aligned), the id returned last is the one the
+// generator computes from that state, and the clock returns any instant in that range (equal,
+// earlier, 1..3 ns later, far later).
+// Claims: the new id is strictly greater than the last one, divisible by 4, positive, encodes a
+// time no earlier than the last id's, not before the clock reading minus 3 ns (rounding), and not
+// after max(reading, previous state + 10 ns); the state never moves backwards (so by induction
+// "greater than the last" is "greater than all", and the id time is within 10 ns * calls of the
+// largest reading).
+func VerifC08_step() {
+	var sec, nsec int64
+	gen := NewMessageIDGen(func() time.Time { return time.Unix(sec, nsec) })
+	fresh := verifrt.NondetBool("fresh")
+	var prev int64
+	if !fresh {
+		s0 := verifrt.NondetInt64("state_sec")
+		n0 := verifrt.NondetInt64("state_nsec")
+		verifrt.Assume(s0 >= 1000000000 && s0 < 2140000000 && n0 >= 0 && n0 < 1000000000)
+		gen.nano = s0*1000000000 + n0
+		prev = int64(NewMessageIDNano(gen.nano, MessageFromClient))
+	}
+	state0 := gen.nano
+	sec = verifrt.NondetInt64("sec")
+	nsec = verifrt.NondetInt64("nsec")
+	// 2001-09-09 .. 2037-11-01; keeps sec<<32 inside int64
+	verifrt.Assume(sec >= 1000000000 && sec < 2140000000 && nsec >= 0 && nsec < 1000000000)
+	reading := sec*1000000000 + nsec
+	id := gen.New(MessageFromClient)
+	verifrt.Assert(id%4 == 0, "C08.step.clienttype")
+	verifrt.Assert(id > 0, "C08.step.positive")
+	verifrt.Assert(gen.nano >= state0, "C08.step.statemonotone")
+	verifrt.Assert(id > prev, "C08.step.increasing")
+	idNano := verifC08Nano(id)
+	verifrt.Assert(idNano >= reading-3, "C08.step.notbeforeclock")
+	limit := reading
+	if state0+10 > limit {
+		limit = state0 + 10
+	}
+	verifrt.Assert(idNano <= limit, "C08.step.notafterclock")
+	if !fresh {
+		verifrt.Assert(idNano >= verifC08Nano(prev), "C08.step.timemonotone")
+	}
+	verifrt.Reach("C08.step.end")
+}
+
+// VerifC08_idgen: the same through the public API only: k calls on a fresh generator against an
+// arbitrary clock (k readings, no ordering assumed).
 func VerifC08_idgen() {
-	k := 3
+	k := 2
 	if verifrt.Tier() == 1 {
-		k = 4
+		k = 3
 	}
 	var sec, nsec int64
 	gen := NewMessageIDGen(func() time.Time { return time.Unix(sec, nsec) })
@@ -25,7 +70,6 @@ func VerifC08_idgen() {
 	for i := 0; i < k; i++ {
 		sec = verifrt.NondetInt64("sec")
 		nsec = verifrt.NondetInt64("nsec")
-		// 2001-09-09 .. 2037-11-01; keeps sec<<32 inside int64
 		verifrt.Assume(sec >= 1000000000 && sec < 2140000000 && nsec >= 0 && nsec < 1000000000)
 		reading := sec*1000000000 + nsec
 		if reading > maxNano {
@@ -33,16 +77,12 @@ func VerifC08_idgen() {
 		}
 		id := gen.New(MessageFromClient)
 		verifrt.Assert(id%4 == 0, "C08.idgen.clienttype")
-		verifrt.Assert(id > 0, "C08.idgen.positive")
-		// decode the time the id claims: seconds in the high word, nanoseconds in the low word
-		idNano := (id>>32)*1000000000 + int64(int32(id))
+		idNano := verifC08Nano(id)
 		verifrt.Assert(idNano >= maxNano-3, "C08.idgen.notbeforeclock")
 		verifrt.Assert(idNano <= maxNano+10*int64(i+1), "C08.idgen.notafterclock")
 		if i > 0 {
-			verifrt.Class("C08-sub4ns-collision", id == prev)
 			verifrt.Assert(id > prev, "C08.idgen.increasing")
-			prevNano := (prev>>32)*1000000000 + int64(int32(prev))
-			verifrt.Assert(idNano >= prevNano, "C08.idgen.timemonotone")
+			verifrt.Assert(idNano >= verifC08Nano(prev), "C08.idgen.timemonotone")
 		}
 		prev = id
 	}
